@@ -75,7 +75,7 @@ func ruleObjectAPI(c *Ctx) {
 					if d[".cur"] != fmt.Sprintf("(%d&%s)", mask, W2) || d[".t"] != "("+W2+">>56)" || d[".off"] != "R.off+3" || d[".tape"] != "R.tape" {
 						bad = fmt.Sprintf("the value iterator is not positioned on the word after the name (cur/t from Tape[off+2], off+3, same tape): %v", d)
 					}
-					if !strings.HasPrefix(size, "P:dst.addNext@calcNext") || d[".tape.Tape"] != "P:dst.tape.Tape[:"+size+"+R.off+3]" || fin["R.off"] != size+"+R.off+3" {
+					if !strings.HasPrefix(size, "P:dst.addNext@calcNext") || (d[".tape.Tape"] != "P:dst.tape.Tape[:"+size+"+R.off+3]" && d[".tape.Tape"] != "R.tape.Tape[:"+size+"+R.off+3]") || fin["R.off"] != size+"+R.off+3" {
 						bad = "the value iterator is not cut at, and the object cursor not moved to, the end of the value (off+3+size from calcNext(false))"
 					}
 					cn := callsTo(sp, "Iter.calcNext")
@@ -94,7 +94,7 @@ func ruleObjectAPI(c *Ctx) {
 					if ne == "" || !hasCond(sp, ne, token.EQL, "nil") {
 						bad = "a member is delivered without the name error having been found nil"
 					}
-					if !hasCond(sp, size, token.GEQ, "0") || !hasCond(sp, size+"+R.off+3", token.LEQ, "len(P:dst.tape.Tape)") {
+					if !hasCond(sp, size, token.GEQ, "0") || !(hasCond(sp, size+"+R.off+3", token.LEQ, "len(P:dst.tape.Tape)") || hasCond(sp, size+"+R.off+3", token.LEQ, "len(R.tape.Tape)")) {
 						bad = "a value is delivered without the tests size >= 0 and end <= len(tape)"
 					}
 				default:
